@@ -1,6 +1,7 @@
 import DaeVerif.C09.Model
 import DaeVerif.C09.FwdProofs
 import DaeVerif.C09.CtlProofs
+import DaeVerif.C09.CtlProv
 import DaeVerif.C09.UdpProofs
 import DaeVerif.C09.PipeProofs
 /-! Helper lemmas and invariants for C09 (the property theorems are in `Props.lean`); one file per model. -/
